@@ -9,6 +9,11 @@ def cmd(pid, tier):
 
 # id -> (category, engine, technique, level text, level note, design ref)
 CHECKS = {
+ "C18": ("model_checking", "HIST+SCHED",
+   "explicit-state BFS over client operation histories (each event run on the real client to quiescence), canonical key = reference lifecycle state + the four table sizes read through the accessor hook; plus SCHED over drop-under-backpressure interleavings and long fixed repetitions",
+   "BFS from a 34-event menu (call, batch, two subscriptions, notification handler and every server answer: ok/error/malformed id/duplicate id, abandon-before-ack, notification, lag, unsubscribe, drop, acknowledgement, server close, stale responses re-using finished ids) to depth 12 (thorough: to the fixpoint, 2.8k states); in every state each table is bounded by what is outstanding and with nothing outstanding all four tables are empty; a stale id behaves like a never-used id. SCHED: handler/subscription dropped while the request queue is full, all interleavings. 200x/1000x repetitions of each lifecycle with constant sizes.",
+   "Table sizes come from the cfg(jsonrpsee_verif) accessor; the event menu is the alphabet (two subscriptions, one call, one batch, one handler).",
+   "DESIGN.md §6 C18"),
  "C05": ("model_checking", "SCHED+ENUM",
    "enumeration of server push sequences x all groupings into arrays x buffer sizes x consumer scripts, each scenario explored over the complete tree of interleavings (stateless DFS under the controlled scheduler); bounded-queue reference model replayed over each execution's trace",
    "Two subscriptions + a pending call on the real async client; every push sequence of length <=3 (thorough 4) over 6 message kinds under every composition into consecutive single/array messages, buffer capacity {1,2} (thorough 3), 7 consumer scripts over {next, unsubscribe, drop}, numeric/string ids; all interleavings of deliveries and consumer actions; the reference model decides the exact items, order, end-of-stream reason (lagged/closed), number of unsubscribe requests naming the subscription on the wire, and the pending call's result.",
